@@ -7,6 +7,7 @@ import (
 	"go/token"
 	"go/types"
 	"io"
+	"path/filepath"
 	"reflect"
 	"slices"
 	"strings"
@@ -602,7 +603,13 @@ func (g *graph) entry() {
 			// as an error and it must not ignore anything.
 			continue
 		}
-		if slices.Contains(strings.Split(dir.Arguments[0], ","), "U1000") {
+		// Names are matched the way lintcmd matches them for every other
+		// check: as case-insensitive globs.
+		namesU1000 := slices.ContainsFunc(strings.Split(dir.Arguments[0], ","), func(name string) bool {
+			m, _ := filepath.Match(strings.ToLower(name), "u1000")
+			return m
+		})
+		if namesU1000 || slices.Contains(strings.Split(dir.Arguments[0], ","), "U1000") {
 			pos := g.fset.PositionFor(dir.Node.Pos(), false)
 			var key ignoredKey
 			switch dir.Command {
